@@ -1,6 +1,7 @@
 """C16 - WebSocket close handshake is orderly and reported exactly once.
 """
 import hashlib
+import random
 import time
 
 from harness import framework
@@ -69,6 +70,84 @@ def replayer(extra, path):
             real.close()
 
 
+PEER_CLOSES = [[0, "none"], [0, "onebyte"], [1000, "none"], [3000, "valid"], [1001, "invalid"], [4999, "valid"], [1000, "valid"]]
+LOCAL_CLOSES = [[0, False], [1001, False], [0, True], [3001, True], [1000, False]]
+
+
+def random_trace(job):
+    """A seeded random closing scenario on a real endpoint, recorded for TLC."""
+    from harness.httpsim import LogCapture
+    tid, seed = job
+    rng = random.Random(seed)
+    role = rng.choice(["server", "client"])
+    cfg = {"role": role, "ping": rng.random() < 0.5, "async": role == "server" and rng.random() < 0.5}
+    ev = []
+    with LogCapture():
+        real = W.CloseReal(cfg, chunk_mode=rng.randrange(3), seed=seed)
+        try:
+            obs = real.proj()
+            peer_closed = peer_gone = False
+            queued = []          # what the harness sent while the handler was suspended
+            pings_seen = 0
+            pong_owed = False
+            for _ in range(rng.randint(4, 30)):
+                blocked = bool(real.gates)
+                can_send = obs["tcpOpen"] and not peer_closed and not peer_gone
+                opts = ["close", "write", "write"]
+                if can_send:
+                    opts += ["msg", "msg", "msg", "peerclose"]
+                    if cfg["ping"] and pong_owed:
+                        opts += ["pong"] * 4
+                if obs["tcpOpen"] and not peer_gone and not (blocked and not queued):
+                    opts += ["eof"]
+                if blocked:
+                    opts += ["resume"] * 3
+                nd = real.env.loop.next_deadline()
+                if nd is not None:
+                    opts += ["advance"] * 4
+                a = rng.choice(opts)
+                args = []
+                if a == "close":
+                    args = list(rng.choice(LOCAL_CLOSES))
+                elif a == "peerclose":
+                    args = list(rng.choice(PEER_CLOSES))
+                    peer_closed = True
+                elif a == "eof":
+                    peer_gone = True
+                elif a == "advance":
+                    d = nd - real.env.now
+                    args = [int(round(d))] if abs(d - round(d)) < 1e-9 else [d]
+                elif a == "pong":
+                    pong_owed = False
+                if a in ("msg", "pong", "peerclose", "eof") and blocked:
+                    queued.append(a)
+                if a == "resume":
+                    while queued:
+                        if queued.pop(0) == "msg":
+                            break
+                obs = real.step(a, args)
+                if not real.gates:
+                    queued = []
+                ev.append({"a": a, "args": args, "obs": obs})
+                if obs["pings"] > pings_seen:
+                    pings_seen = obs["pings"]
+                    pong_owed = True
+                elif a == "advance":
+                    pong_owed = False
+                if not obs["tcpOpen"] and obs["notified"] == 1 and rng.random() < 0.6:
+                    break
+            return {"id": tid, "cfg": cfg, "ev": ev}
+        finally:
+            real.close()
+
+
+def trace_sig(t, bad, l):
+    if not bad:
+        return {}
+    return {"role": t["cfg"]["role"], "ping": t["cfg"]["ping"], "async": t["cfg"]["async"], "args": bad.get("args"),
+            "obs_err": bad["obs"]["err"], "invalid_close": any(e["a"] == "peerclose" and e["args"][1] == "invalid" for e in t["ev"][:l])}
+
+
 def run(ctx):
     t0 = time.time()
     ctx.mc("ws", "MC_WsClose", "MC_WsClose.cfg", overrides=ctx.pick({"MaxMsgs": 1}, {"MaxMsgs": 2}),
@@ -83,6 +162,11 @@ def run(ctx):
     ctx.replay(expand(paths, ctx.seed), replayer)
     ctx._phase("s2c", t0)
     ctx.cov["exhaustive"] = True
+    t0 = time.time()
+    n = ctx.pick(300, 5000)
+    traces = framework.pool_map(random_trace, [(i + 1, ctx.seed * 1000003 + i) for i in range(n)])
+    ctx.validate("ws", "Trace_WsClose", "Trace_WsClose.cfg", traces, sig_fn=trace_sig)
+    ctx._phase("c2s", t0)
 
 
 def replay(ctx, rec):
